@@ -326,29 +326,34 @@ int apply_low (const char *fun, object_t * ob, int num_arg) {
 
           //if (!(funflags & (NAME_STATIC | NAME_PRIVATE))
           //    || (local_call_origin & (ORIGIN_DRIVER | ORIGIN_CALL_OUT)))
+          /* The searched function is found, add to APPLY_CACHE. The entry is the same whoever
+           * asks; whether the caller may see the function is decided on every call (also on a
+           * cache hit), so a refused call must not be remembered as "not defined".
+           */
+          entry->oprogp = ob->prog;
+          entry->id = progp->id_number;
+          entry->name = ref_string (sfun);
+          entry->index = index;
+          entry->variable_index_offset = vio;
+          entry->function_index_offset = fio;
+          entry->num_arg = fundefp->num_arg;
+          entry->num_local = fundefp->num_local;
+          entry->progp = prog;
+
           if (function_visible(local_call_origin, funflags))
             {
               push_control_stack (FRAME_FUNCTION | FRAME_OB_CHANGE);
               current_prog = prog;
               caller_type = local_call_origin;
 
-              /* The searched function is found, add to APPLY_CACHE */
-              entry->oprogp = ob->prog;
-              entry->id = progp->id_number;
-              entry->name = ref_string (sfun);
-              entry->index = index;
-
               csp->fr.table_index = index;
               csp->num_local_variables = num_arg;
-              entry->variable_index_offset = variable_index_offset = vio;
-              entry->function_index_offset = function_index_offset = fio;
+              variable_index_offset = vio;
+              function_index_offset = fio;
               if (funflags & NAME_TRUE_VARARGS)
                 setup_varargs_variables (csp->num_local_variables, fundefp->num_local, fundefp->num_arg);
               else
                 setup_variables (csp->num_local_variables, fundefp->num_local, fundefp->num_arg);
-              entry->num_arg = fundefp->num_arg;
-              entry->num_local = fundefp->num_local;
-              entry->progp = current_prog;
               previous_ob = current_object;
               current_object = ob;
               opt_trace (TT_EVAL, "calling \"%s\": offset %+d", fun, funp->address);
@@ -361,17 +366,20 @@ int apply_low (const char *fun, object_t * ob, int num_arg) {
               return 1;
             }
         }
-      /* We have to mark a function not to be in the object */
-      entry->id = progp->id_number;
-      entry->oprogp = progp;
-      if (sfun)
-        {
-          ref_string (sfun);
-          entry->name = sfun;
-        }
       else
-        entry->name = make_shared_string (fun);
-      entry->progp = (program_t *) 0;
+        {
+          /* We have to mark a function not to be in the object */
+          entry->id = progp->id_number;
+          entry->oprogp = progp;
+          if (sfun)
+            {
+              ref_string (sfun);
+              entry->name = sfun;
+            }
+          else
+            entry->name = make_shared_string (fun);
+          entry->progp = (program_t *) 0;
+        }
     }
 
   /* Failure. Deallocate stack. */
